@@ -373,6 +373,11 @@ func (s *Sim) GenAccountTx(t *rapid.T, kinds []string) *Tx {
 		if g := types.CalNewAmountGas(amt, types.EverContractLiankeFee) + 100000; gas < g {
 			gas = g
 		}
+		if rapid.IntRange(0, 2).Draw(t, "tightgas") == 0 {
+			// at and just above the legal minimum: the gas limit covers the transfer gas and the intrinsic gas each, but not
+			// necessarily both, or only just
+			gas = types.CalNewAmountGas(amt, types.EverContractLiankeFee) + uint64(rapid.SampledFrom([]int{0, 1, 1000, 20999, 21000, 21001, 22000, 30000, 60000}).Draw(t, "gasabove"))
+		}
 		return &Tx{Tx: world.RawTx(from, nonce, &c, amt, gas, world.GasPrice, data), Kind: kind, From: from.Addr, Desc: fmt.Sprintf("%s value %v to %s gas %d nonce %d", kind, amt, to.Hex()[:8], gas, nonce)}
 	case "call-suicide":
 		c, ok := s.Contracts["suicider"]
